@@ -1141,18 +1141,30 @@ func rangeIter(x value, t types.Type) iter {
 		it := &omapIter{m: x}
 		if x != nil {
 			it.keys = append([]value(nil), x.keys...)
-			if MapOrderAll && len(it.keys) > 1 {
+			if MapOrderMode == 1 && len(it.keys) > 1 {
+				// the reversed order: one alternative schedule, no fork
+				for l, r := 0, len(it.keys)-1; l < r; l, r = l+1, r-1 {
+					it.keys[l], it.keys[r] = it.keys[r], it.keys[l]
+				}
+			}
+			if MapOrderMode == 3 && len(it.keys) > 1 {
+				// rotated by one
+				it.keys = append(it.keys[1:], it.keys[0])
+			}
+			if (MapOrderAll || MapOrderMode == 2) && len(it.keys) > 1 {
+				if len(it.keys) > 5 {
+					panic(unsupported{"all iteration orders of a map with more than 5 entries"})
+				}
 				// iteration order is a schedule variable: case split over permutations
 				rest := it.keys
 				var perm []value
 				for len(rest) > 1 {
-					c := X.fresh("maporder", "Int")
-					X.assert(fmt.Sprintf("(and (<= 0 %s) (< %s %d))", c.T, c.T, len(rest)))
-					k := concretizeIndex(c, len(rest), "order")
+					k := X.choose(len(rest))
 					perm = append(perm, rest[k])
 					rest = append(append([]value(nil), rest[:k]...), rest[k+1:]...)
 				}
 				it.keys = append(perm, rest...)
+				X.mapOrders++
 			}
 		}
 		return it
